@@ -138,6 +138,30 @@ Theorem C01_error_code_sign_independent : forall c : Z,
 Proof. exact code_verdict_sign_independent. Qed.
 Print Assumptions C01_error_code_sign_independent.
 
+(* Real time enters only through the broker reaction the client observes.  The deadline of the
+   produce round trip is the effective WriteTimeout (produce_deadline_ms o = eff_writeTimeoutMs o;
+   ReadTimeout feeds no deadline here: the metadata lookup of WriteMessages runs under the
+   caller's context only, metadata_deadline_ms = None) — compared with the context deadline the
+   RoundTripper actually receives from the real Writer, for generated option pairs incl. zero =
+   default (op pdl).  An acknowledgement arriving within WriteTimeout, whatever ReadTimeout is, is
+   therefore seen as an acknowledgement and ends the retry loop at once: one produce request, one
+   copy (ops pto run the transition system with this reaction against the real Writer on a
+   delaying broker, both ways round); one arriving later is a lost acknowledgement (applied,
+   deadline error seen), which C01_duplicates_only_by_retry accounts for. *)
+Theorem C01_ack_within_write_timeout : forall o delay cfg n,
+  (delay < eff_writeTimeoutMs o)%Z ->
+  timed_reaction o delay = AppliedAcked /\
+  r_seen (timed_reaction o delay) = None /\
+  after_attempt cfg n (r_seen (timed_reaction o delay)) = PFinish None.
+Proof. exact ack_within_write_timeout. Qed.
+Print Assumptions C01_ack_within_write_timeout.
+
+Theorem C01_ack_after_write_timeout : forall o delay,
+  (eff_writeTimeoutMs o <= delay)%Z ->
+  r_applied (timed_reaction o delay) = true /\ r_seen (timed_reaction o delay) = Some deadline_err.
+Proof. exact ack_after_write_timeout. Qed.
+Print Assumptions C01_ack_after_write_timeout.
+
 (* a batch answered with UNKNOWN_SERVER_ERROR (-1) on its last allowed attempt: WriteErrors, not nil *)
 Example C01_negative_code_is_an_error :
   exists s, run (step (mkCfg 2 100 1 false (Some 0%N) (fun _ => false))) init
